@@ -26,7 +26,7 @@ pub fn run<P: Pat>(args: &Args) -> Value {
     let root = args.get("root").expect("--root");
     let pairs = vlib::trace::read_ndjson(&args.get("pairs").expect("--pairs"));
     let mut out = TraceWriter::create(&args.get("out").expect("--out"));
-    let config = util::make_config(&format!("{root}/m{}", P::NAME), &format!("c6{}m{}_", args.get_or("tag", ""), P::NAME), args.num("timeout", 20_000));
+    let config = util::make_config(&format!("{root}/m{}{}", P::NAME, util::run_token(args)), &format!("c6{}m{}_", util::run_token(args), P::NAME), args.num("timeout", 20_000));
     let name: ServiceName = "c06/matrix".try_into().unwrap();
     let mut n = 0u64;
     {
